@@ -136,11 +136,19 @@ where
             self.position += self.block.size();
 
             if self.block.data().len() > 0 {
-                break;
+                return Ok(self.block.data().len());
             }
         }
 
-        Ok(self.block.data().len())
+        // At EOF, no frame was read, so the block must not be left holding the previous block.
+        self.block.set_position(self.position);
+        self.block.set_size(0);
+
+        let data = self.block.data_mut();
+        data.set_position(0);
+        data.resize(0);
+
+        Ok(0)
     }
 
     fn read_block(&mut self) -> io::Result<usize> {
